@@ -30,6 +30,10 @@ struct Case {
     std::vector<std::vector<int>> exempt;  // exemption groups
     std::vector<Cluster> clusters;         // clusters[0..] ; top-level ones listed in topClusters
     std::vector<int> topClusters;
+    // two-stage recipe (libcola's documented way to add overlap avoidance): a first ConstrainedFDLayout is made feasible and
+    // run without overlap avoidance, node `pertNode` is then dragged by (pertDx, pertDy), and a second ConstrainedFDLayout over
+    // the SAME rectangles and compound-constraint objects is made feasible and run with the case's own settings
+    bool twoStage = false; int pertNode = 0; double pertDx = 0, pertDy = 0;
     std::string str() const {
         Writer w;
         w.tok("cola").i(nodes.size()).i(edges.size()).d(ideal).i(nonOverlap).i(makeFeasible).i(neighbourStress).i(runDims).nl();
@@ -47,6 +51,7 @@ struct Case {
         w.tok("clusters").i(clusters.size()).nl();
         for (auto &c : clusters) { w.d(c.padding).d(c.margin).i(c.nodes.size()); for (int x : c.nodes) w.i(x); w.i(c.children.size()); for (int x : c.children) w.i(x); w.nl(); }
         w.tok("top").i(topClusters.size()); for (int x : topClusters) w.i(x); w.nl();
+        if (twoStage) w.tok("twostage").i(pertNode).d(pertDx).d(pertDy).nl();
         return w.str();
     }
     static Case parse(Reader &r) {
@@ -64,6 +69,7 @@ struct Case {
         r.expect("clusters"); k = r.i();
         for (size_t i = 0; i < k; i++) { Cluster cl; cl.padding = r.d(); cl.margin = r.d(); size_t q = r.i(); for (size_t j = 0; j < q; j++) cl.nodes.push_back(r.i()); q = r.i(); for (size_t j = 0; j < q; j++) cl.children.push_back(r.i()); c.clusters.push_back(cl); }
         r.expect("top"); k = r.i(); for (size_t i = 0; i < k; i++) c.topClusters.push_back(r.i());
+        if (!r.eof()) { r.expect("twostage"); c.twoStage = true; c.pertNode = r.i(); c.pertDx = r.d(); c.pertDy = r.d(); }
         return c;
     }
 };
@@ -97,6 +103,15 @@ void layout(const Case &c, Run &run, std::set<cola::CompoundConstraint *> &unsat
         }
         run.ccs.push_back(cc);
     }
+    if (c.twoStage) {
+        cola::ConstrainedFDLayout first(run.rs, es, c.ideal);
+        first.setConstraints(run.ccs);
+        first.setUnsatisfiableConstraintInfo(&run.ux, &run.uy);
+        first.makeFeasible();
+        first.run(true, true);
+        vpsc::Rectangle *pr = run.rs[c.pertNode];
+        pr->moveCentre(pr->getCentreX() + c.pertDx, pr->getCentreY() + c.pertDy);
+    }
     cola::ConstrainedFDLayout alg(run.rs, es, c.ideal);
     alg.setConstraints(run.ccs);
     if (c.nonOverlap) {
@@ -117,7 +132,7 @@ void layout(const Case &c, Run &run, std::set<cola::CompoundConstraint *> &unsat
     }
     alg.setUnsatisfiableConstraintInfo(&run.ux, &run.uy);
     if (c.makeFeasible) alg.makeFeasible();
-    alg.run(c.runDims & 1, c.runDims & 2);
+    if (c.runDims) alg.run(c.runDims & 1, c.runDims & 2);      // runDims == 0: makeFeasible() only
     for (auto u : run.ux) unsat.insert(u->cc);
     for (auto u : run.uy) unsat.insert(u->cc);
 }
@@ -158,6 +173,8 @@ Verdict eval_c07(const Case &c) {
     Run run;
     std::set<cola::CompoundConstraint *> unsat;
     layout(c, run, unsat);
+    if (c.twoStage) v.cls("two-stage");
+    if (c.runDims == 0) v.cls("makeFeasible-only");
     std::vector<R4> init = c.nodes;
     auto P0 = [&](int dim, int i) { return dim ? init[i].y + init[i].h / 2 : init[i].x + init[i].w / 2; };
     std::set<int> kinds;
@@ -203,8 +220,12 @@ Verdict eval_c07(const Case &c) {
                 std::vector<double> p0x, p0y;
                 for (size_t q = 0; q < c.nodes.size(); q++) { p0x.push_back(P0(0, (int)q)); p0y.push_back(P0(1, (int)q)); }
                 bool feas = k.kind == 5 ? (axisFeasible(c, 0, p0x, p0y) && axisFeasible(c, 1, p0x, p0y)) : axisFeasible(c, k.dim, p0x, p0y);
-                v.fail("constraint #" + std::to_string(i) + " is violated and was not reported unsatisfiable" + (feas ? "" : " (the constraints of this axis are jointly unsatisfiable)") + ": " + bad,
-                       feas ? "constraint-violated-unreported" : "F12-unsatisfiable-mix-violation-unreported");
+                // known finding F45: right after makeFeasible() alone (no run()), a jointly satisfiable EQUALITY (alignment, '==' separation,
+                // distribution, fixed-relative) can be left violated and unreported; inequalities are not covered by that signature
+                bool equality = k.kind == 1 || k.kind == 3 || k.kind == 5 || ((k.kind == 0 || k.kind == 4 || k.kind == 6) && k.eq);
+                bool f45 = feas && c.runDims == 0 && equality;
+                v.fail("constraint #" + std::to_string(i) + " is violated and was not reported unsatisfiable" + (feas ? "" : " (the constraints of this axis are jointly unsatisfiable)") + (f45 ? " [an equality, right after makeFeasible() without run()]" : "") + ": " + bad,
+                       !feas ? "F12-unsatisfiable-mix-violation-unreported" : (f45 ? "F45-equality-violated-after-makeFeasible-alone" : "constraint-violated-unreported"));
             }
         }
     }
@@ -233,6 +254,8 @@ Verdict eval_c08(const Case &c) {
     if (coincident) v.cls("coincident-pair");
     if (!c.clusters.empty()) v.cls("clusters");
     if (!c.exempt.empty()) v.cls("exemptions");
+    if (c.exempt.size() >= 2) v.cls(">=2-exemption-groups");
+    if (c.twoStage) v.cls("two-stage");
     if (!run.ux.empty() || !run.uy.empty()) { v.cls("reported-unsatisfiable(unjudged)"); v.nontrivial = false; return v; }
     size_t n = c.nodes.size();
     for (size_t i = 0; i < n && v.ok; i++) if (!std::isfinite(run.rs[i]->getCentreX()) || !std::isfinite(run.rs[i]->getCentreY())) v.fail(fmt("node %zu has a non-finite position", i), "non-finite");
@@ -349,6 +372,8 @@ Case gen_c07() {
         genConstraints(c, true, wx, wy);
     } else genConstraints(c, coin(1, 2), wx, wy);
     c.runDims = pick(std::vector<int>{3, 3, 3, 1, 2});
+    if (c.makeFeasible && coin(1, 5)) c.runDims = 0;        // the property also speaks about the positions right after makeFeasible()
+    if (n >= 1 && coin(1, 4)) { c.twoStage = true; c.makeFeasible = true; c.pertNode = irange(0, n - 1); c.pertDx = irange(-100, 100); c.pertDy = irange(-100, 100); }
     return c;
 }
 Case gen_c08() {
@@ -356,7 +381,10 @@ Case gen_c08() {
     genGraph(c, tier_thorough() ? 24 : 10, true);
     int n = (int)c.nodes.size();
     c.nonOverlap = true; c.makeFeasible = true; c.runDims = 3;
-    if (coin(1, 4) && n >= 3) { std::vector<int> g; for (int i = 0; i < n; i++) if (coin(1, 3)) g.push_back(i); if (g.size() >= 2) c.exempt.push_back(g); }
+    if (coin(1, 3) && n >= 3) {       // 1-3 exemption groups (they may share nodes)
+        int ng = irange(1, 3);
+        for (int gi = 0; gi < ng; gi++) { std::vector<int> g; for (int i = 0; i < n; i++) if (coin(1, 3)) g.push_back(i); if (g.size() >= 2) c.exempt.push_back(g); }
+    }
     if (coin(2, 3) && n >= 3) {        // cluster hierarchy, depth <= 2, disjoint node sets
         std::vector<int> perm(n); std::iota(perm.begin(), perm.end(), 0);
         for (int i = n - 1; i > 0; i--) std::swap(perm[i], perm[irange(0, i)]);
@@ -371,6 +399,7 @@ Case gen_c08() {
         for (int i = 0; i < n; i++) { wx[i] = (i % cols) * 80.0; wy[i] = (i / cols) * 80.0; }
         genConstraints(c, true, wx, wy);
     }
+    if (coin(1, 6)) { c.twoStage = true; c.pertNode = irange(0, n - 1); c.pertDx = irange(-60, 60); c.pertDy = irange(-60, 60); }
     return c;
 }
 } // namespace
